@@ -3,13 +3,16 @@ import SlugModel.Lemmas.PackInv
 # C19 (Pack part) — packing terminates; a dereferenced directory that links to itself is not bounded
 
 Property theorems only; general helper lemmas live in `Lemmas/PackInv`, the evaluation lemmas of
-the closed example are private to this file.
-`walkNode`/`walkChildren`/`visit`/`resolveExternalLink` (Pack.lean) take fuel where the code
-recurses without a bound of its own (the nested `filepath.Walk` into a dereferenced directory, the
-symlink-chain recursion of `resolveExternalLink`) and report `diverged` when it runs out;
-`packFuel` is what `pack` gives them.  A result `diverged` *for every fuel* is the model's
-rendering of "the code does not return" (finding F26: in the real code the recursion is bounded
-only by the path-length limit of the kernel / the stack).
+the closed examples are private to this file.
+`walkNode`/`walkChildren`/`visit` (Pack.lean) take fuel where the code recurses without a bound of
+its own (the nested `filepath.Walk` into a dereferenced directory) and report `diverged` when it
+runs out; `packFuel` is what `pack` gives them.  A result `diverged` *for every fuel* is the
+model's rendering of "the code does not return" (finding F26, open: in the real code the recursion
+is bounded only by the path-length limit of the kernel / the stack).
+`resolveExternalLink` is different since the fix of finding F25: its counter is the code's own
+bound on the symlink chain (`maxLinkHops`), running out of it is the I/O error "too many levels of
+symbolic links", and it never reports `diverged`.  A dereferenced link whose target is a special
+file is skipped (finding F27, fixed).
 -/
 namespace Slug
 
@@ -22,16 +25,36 @@ local instance pkDecEqExcept {ε α : Type} [DecidableEq ε] [DecidableEq α] : 
     | .ok _, .error _ => isFalse (by intro h; cases h)
     | .error _, .ok _ => isFalse (by intro h; cases h)
 
+/-- **C19_resolveExternalLink_never_diverges.**  `resolveExternalLink` never reports `diverged`,
+whatever the filesystem, the hop bound and the path: the only failures are I/O errors.  (Before
+the fix of F25 this needed the hypothesis that the chain ends, see below.) -/
+theorem C19_resolveExternalLink_never_diverges (fs : FS) (n : Nat) (path : Str) :
+    resolveExternalLink fs n path ≠ .error .diverged :=
+  pk_resolveExternalLink_never_diverges fs n path
+
+/-- every failure of `resolveExternalLink` is the I/O error -/
+theorem C19_resolveExternalLink_error_is_ioerr (fs : FS) (n : Nat) (path : Str) (r : PResult)
+    (h : resolveExternalLink fs n path = .error r) : r = .ioerr :=
+  pk_resolveExternalLink_err_ioerr fs n path r h
+
 /-- **C19_resolveExternalLink_terminates_acyclic_partial.** If the chain of symlinks starting at
 `path` ends within `n` steps (`pkChainEnds`: at a non-link, at a dangling target, or at once
-because `path` is no link) then `resolveExternalLink` with fuel `n` does not run out of fuel, and
-more fuel does not change its answer.  Partial: "ends" is a hypothesis on the filesystem; a cyclic
-chain does not end (`C19_cex_link_cycle`). -/
+because `path` is no link) then `resolveExternalLink` with hop bound `n` does not report
+`diverged` (now true without the hypothesis: `C19_resolveExternalLink_never_diverges`), and a
+larger bound does not change its answer — in particular the bound `maxLinkHops` that `visit` uses
+gives the answer of the unbounded chain walk whenever the chain has at most `maxLinkHops` links.
+A chain that does not end within the bound is an error (`C19_link_chain_too_long_is_error`). -/
 theorem C19_resolveExternalLink_terminates_acyclic_partial (fs : FS) (n : Nat) (path : Str)
     (h : pkChainEnds fs n path = true) :
     resolveExternalLink fs n path ≠ .error .diverged ∧
     ∀ m, n ≤ m → resolveExternalLink fs m path = resolveExternalLink fs n path :=
   pk_resolveExternalLink_ends fs n path h
+
+/-- **C19_link_chain_too_long_is_error.**  A chain that does not end within `n` steps (longer than
+the bound, or cyclic) makes `resolveExternalLink` with hop bound `n` fail with the I/O error. -/
+theorem C19_link_chain_too_long_is_error (fs : FS) (n : Nat) (path : Str)
+    (h : pkChainEnds fs n path = false) : resolveExternalLink fs n path = .error .ioerr :=
+  pk_resolveExternalLink_too_long fs n path h
 
 /-! ## the closed example: `/t/src/l -> /t/ext`, `/t/ext/self -> /t/ext`, dereferencing on -/
 
@@ -59,7 +82,7 @@ private theorem c19_f10 : c19fs.lstat c19ext = .ok c19dir := by decide
 private theorem c19_f9 (j : Nat) : resolveExternalLink c19fs (j + 1) c19self = .ok (c19ext, c19dir) := by
   rw [resolveExternalLink]
   simp [FS.readlink, c19_f5, c19_f10, show isAbs c19ext = true by decide, c19dir]
-
+private theorem c19_f9h : resolveExternalLink c19fs maxLinkHops c19self = .ok (c19ext, c19dir) := c19_f9 254
 
 private theorem c19_f7 : pathRel c19root (replaceFirst c19self c19ext c19self) = some "../ext/self/self".toList := by decide
 
@@ -78,13 +101,10 @@ private theorem c19_visit_self (dst sub : Str) (hsub : pathRel c19root (replaceF
       simp only [show ("self".toList = dot) = False from by decide, if_false, ruleExcludes,
         Bool.false_eq_true, hne, c19_f8, show c19o.allow = [] from rfl, show c19o.dereference = true from rfl,
         Bool.not_true]
-      cases f with
-      | zero => simp [resolveExternalLink]
-      | succ j =>
-        simp only [c19_f9, c19dir, c19_f10]
-        have := ih (j + 1) (by omega)
-        unfold c19dir at this
-        simp [this]
+      simp only [c19_f9h, c19dir, c19_f10]
+      have := ih f (by omega)
+      unfold c19dir at this
+      simp [this]
     · intro _ _ h; cases h
 
 private theorem c19_cycle : ∀ (n fuel : Nat), fuel ≤ n → ∀ (dst sub : Str),
@@ -133,6 +153,7 @@ private theorem c19_g8 : validSymlink c19cwd [] c19root c19l c19ext = false := b
 private theorem c19_g9 (j : Nat) : resolveExternalLink c19fs (j + 1) c19l = .ok (c19ext, c19dir) := by
   rw [resolveExternalLink]
   simp [FS.readlink, c19_g5, c19_f10, show isAbs c19ext = true by decide, c19dir]
+private theorem c19_g9h : resolveExternalLink c19fs maxLinkHops c19l = .ok (c19ext, c19dir) := c19_g9 254
 private theorem c19_g10 : pathRel c19root (replaceFirst c19self c19ext c19l) = some "l/self".toList := by decide
 
 private theorem c19_visit_l (st : PState) (f : Nat) :
@@ -145,13 +166,10 @@ private theorem c19_visit_l (st : PState) (f : Nat) :
       simp only [show ("l".toList = dot) = False from by decide, if_false, ruleExcludes,
         Bool.false_eq_true, c19_g8, show c19o.allow = [] from rfl, show c19o.dereference = true from rfl,
         Bool.not_true]
-      cases f with
-      | zero => simp [resolveExternalLink]
-      | succ j =>
-        simp only [c19_g9, c19dir, c19_f10]
-        have := c19_cycle (j + 1) (j + 1) (Nat.le_refl _) c19l _ c19_g10 (by decide) st
-        unfold c19dir at this
-        simp [this]
+      simp only [c19_g9h, c19dir, c19_f10]
+      have := c19_cycle f f (Nat.le_refl _) c19l _ c19_g10 (by decide) st
+      unfold c19dir at this
+      simp [this]
     · intro _ _ h; cases h
 
 private theorem c19_top (fuel : Nat) (st : PState) :
@@ -220,13 +238,14 @@ def c19loop : FS := [
 def c19a : Str := "/t/a".toList
 def c19b : Str := "/t/b".toList
 
-/-- **C19_cex_link_cycle.** On a two-link cycle `resolveExternalLink` runs out of every fuel (the
-code recurses until the stack is exhausted; `Lstat` never follows, so the kernel's ELOOP does not
-stop it). -/
-theorem C19_cex_link_cycle (fuel : Nat) :
-    resolveExternalLink c19loop fuel c19a = .error .diverged ∧
-    resolveExternalLink c19loop fuel c19b = .error .diverged := by
-  induction fuel with
+/-- **C19_link_cycle_is_error** (finding F25, fixed; replaces `C19_cex_link_cycle`, which stated
+that the cycle diverges for every fuel).  On a two-link cycle `resolveExternalLink` fails with the
+I/O error for every hop bound: the code gives up with "too many levels of symbolic links" instead
+of recursing until the stack is exhausted. -/
+theorem C19_link_cycle_is_error (n : Nat) :
+    resolveExternalLink c19loop n c19a = .error .ioerr ∧
+    resolveExternalLink c19loop n c19b = .error .ioerr := by
+  induction n with
   | zero => exact ⟨rfl, rfl⟩
   | succ n ih =>
     have ha : c19loop.lstat c19a = .ok (.link c19b) := by decide
@@ -237,7 +256,24 @@ theorem C19_cex_link_cycle (fuel : Nat) :
     · rw [resolveExternalLink]
       simp only [FS.readlink, ha, hb, show isAbs c19a = true by decide, if_true, ih.1]
 
-/-- an ending chain for comparison (`l1 -> l2 -> d`): two steps of fuel are enough -/
+/-- the bound `visit` uses -/
+theorem C19_link_cycle_is_error_maxLinkHops :
+    resolveExternalLink c19loop maxLinkHops c19a = .error .ioerr :=
+  (C19_link_cycle_is_error maxLinkHops).1
+
+/-- `Pack` with dereferencing on a tree holding an out-of-tree link into that cycle: an I/O error,
+nothing written -/
+def c19loopfs : FS := [
+  (["t".toList], .dir 0o755 0),
+  (["t".toList, "a".toList], .link "/t/b".toList),
+  (["t".toList, "b".toList], .link "/t/a".toList),
+  (["t".toList, "src".toList], .dir 0o755 0),
+  (["t".toList, "src".toList, "l".toList], .link "/t/a".toList)]
+
+theorem C19_link_cycle_pack_is_error : pack c19loopfs c19cwd c19o c19root = (pkEmpty, .ioerr) := by
+  decide
+
+/-- an ending chain for comparison (`l1 -> l2 -> d`): two steps are enough -/
 def c19chain : FS := [
   (["t".toList], .dir 0o755 0),
   (["t".toList, "d".toList], .dir 0o755 0),
@@ -245,5 +281,26 @@ def c19chain : FS := [
   (["t".toList, "l1".toList], .link "/t/l2".toList)]
 
 example : pkChainEnds c19chain 2 "/t/l1".toList = true := by decide
+
+/-! ## a dereferenced link to a special file -/
+
+/-- `/t/src/l -> /t/fifo` (a special file outside the tree), next to a regular file `/t/src/a` -/
+def c19spfs : FS := [
+  (["t".toList], .dir 0o755 0),
+  (["t".toList, "src".toList], .dir 0o755 0),
+  (["t".toList, "src".toList, "a".toList], .file 0o644 0 "x".toList),
+  (["t".toList, "src".toList, "l".toList], .link "/t/fifo".toList),
+  (["t".toList, "fifo".toList], .special)]
+
+/-- **C19_deref_special_skipped** (finding F27, fixed).  With dereferencing on, a link that leaves
+the tree and ends at a special file is skipped, like a special file met in the tree: `Pack`
+succeeds, the archive holds the regular file `a` and no entry for `l` (before the fix the result
+was an I/O error). -/
+theorem C19_deref_special_skipped :
+    resolveExternalLink c19spfs maxLinkHops c19l = .ok ("/t/fifo".toList, .special) ∧
+    pack c19spfs c19cwd c19o c19root =
+      ({ entries := [{ name := "a".toList, typ := tReg, mode := 0o644, mtime := 0, link := [], body := "x".toList }],
+         pmeta := { files := ["a".toList], size := 1 } }, .ok) := by
+  decide
 
 end Slug
